@@ -47,6 +47,21 @@ Proof.
   destruct (wrap64_cases n) as (k & Hk & _). rewrite Hk. apply Z.mod_add. consts. lia.
 Qed.
 
+Lemma wrap64_unique n r : in64 r = true -> r mod two64 = n mod two64 -> r = wrap64 n.
+Proof.
+  intros Hr Hm. pose proof (wrap64_in64 n) as Hw. pose proof (wrap64_congr n) as Hc.
+  rewrite <- Hm in Hc. apply in64_iff in Hr, Hw. consts.
+  pose proof (Z.div_mod r 18446744073709551616 ltac:(lia)).
+  pose proof (Z.div_mod (wrap64 n) 18446744073709551616 ltac:(lia)). lia.
+Qed.
+
+(* the literal threshold of times_ii is the double 2^63 - 1024 *)
+
+Ltac bsplit E := match type of E with
+                 | (_ <? _) = true => apply Z.ltb_lt in E | (_ <? _) = false => apply Z.ltb_ge in E
+                 | (_ <=? _) = true => apply Z.leb_le in E | (_ <=? _) = false => apply Z.leb_gt in E
+                 end.
+
 (* ---------------------------------------------------------------- + and - *)
 Lemma plus_exact a b : in64 a = true -> in64 b = true -> in64 (a + b) = true -> plus_ii a b = RInt (a + b).
 Proof.
@@ -54,23 +69,22 @@ Proof.
   apply in64_iff in Ha, Hb, Hc. consts.
   destruct (0 <? a) eqn:E1; [destruct (0 <? b) eqn:E2; destruct (a + b <? 0) eqn:E3; cbn [andb]; try reflexivity; unb; lia|].
   destruct (a <? 0) eqn:E4; [|reflexivity].
-  destruct (b <? 0) eqn:E2; destruct (0 <? a + b) eqn:E3; cbn [andb]; try reflexivity; unb; lia.
+  destruct (b <? 0) eqn:E2; destruct (0 <=? a + b) eqn:E3; cbn [andb]; try reflexivity; unb; lia.
 Qed.
 
 Lemma plus_overflow_float a b :
-  in64 a = true -> in64 b = true -> in64 (a + b) = false -> (a, b) <> (min_int64, min_int64) ->
+  in64 a = true -> in64 b = true -> in64 (a + b) = false ->
   plus_ii a b = RFloat (i2f a + i2f b)%float.
 Proof.
-  intros Ha Hb Hc Hne. unfold plus_ii.
+  intros Ha Hb Hc. unfold plus_ii.
   destruct (wrap64_cases (a + b)) as (k & Hk & Hr). set (c := wrap64 (a + b)) in *.
-  apply in64_iff in Ha, Hb. apply in64_false_iff in Hc. unfold min_int64 in Hne. consts.
-  assert (Hab : ~ (a = -9223372036854775808 /\ b = -9223372036854775808)) by (intros [-> ->]; apply Hne; reflexivity).
+  apply in64_iff in Ha, Hb. apply in64_false_iff in Hc. consts.
   destruct Hc as [Hc|Hc].
-  - (* below *) assert (a < 0 /\ b < 0 /\ 0 < c) as (Ha0 & Hb0 & Hc0) by nia.
+  - assert (a < 0 /\ b < 0 /\ 0 <= c) as (Ha0 & Hb0 & Hc0) by nia.
     assert (E1 : (0 <? a) = false) by (apply Z.ltb_ge; lia).
     assert (E2 : (a <? 0) = true) by (apply Z.ltb_lt; lia).
     assert (E3 : (b <? 0) = true) by (apply Z.ltb_lt; lia).
-    assert (E4 : (0 <? c) = true) by (apply Z.ltb_lt; lia).
+    assert (E4 : (0 <=? c) = true) by (apply Z.leb_le; lia).
     rewrite E1, E2, E3, E4. reflexivity.
   - assert (0 < a /\ 0 < b /\ c < 0) as (Ha0 & Hb0 & Hc0) by nia.
     assert (E1 : (0 <? a) = true) by (apply Z.ltb_lt; lia).
@@ -83,77 +97,111 @@ Lemma minus_exact a b : in64 a = true -> in64 b = true -> in64 (a - b) = true ->
 Proof.
   intros Ha Hb Hc. unfold minus_ii. rewrite (wrap64_id _ Hc).
   apply in64_iff in Ha, Hb, Hc. consts.
-  destruct (0 <? a) eqn:E1; [destruct (b <? 0) eqn:E2; destruct (a - b <? 0) eqn:E3; cbn [andb]; try reflexivity; unb; lia|].
-  destruct (a <? 0) eqn:E4; [|reflexivity].
-  destruct (0 <? b) eqn:E2; destruct (0 <? a - b) eqn:E3; cbn [andb]; try reflexivity; unb; lia.
+  destruct (0 <=? a) eqn:E1.
+  - destruct (b <? 0) eqn:E2; destruct (a - b <? 0) eqn:E3; cbn [andb]; try reflexivity; unb; lia.
+  - destruct (0 <? b) eqn:E2; destruct (0 <? a - b) eqn:E3; cbn [andb]; try reflexivity; unb; lia.
 Qed.
 
 Lemma minus_overflow_float a b :
-  in64 a = true -> in64 b = true -> in64 (a - b) = false -> (a, b) <> (0, min_int64) ->
+  in64 a = true -> in64 b = true -> in64 (a - b) = false ->
   minus_ii a b = RFloat (i2f a - i2f b)%float.
 Proof.
-  intros Ha Hb Hc Hne. unfold minus_ii.
+  intros Ha Hb Hc. unfold minus_ii.
   destruct (wrap64_cases (a - b)) as (k & Hk & Hr). set (c := wrap64 (a - b)) in *.
-  apply in64_iff in Ha, Hb. apply in64_false_iff in Hc. unfold min_int64 in Hne. consts.
-  assert (Hab : ~ (a = 0 /\ b = -9223372036854775808)) by (intros [-> ->]; apply Hne; reflexivity).
+  apply in64_iff in Ha, Hb. apply in64_false_iff in Hc. consts.
   destruct Hc as [Hc|Hc].
   - assert (a < 0 /\ 0 < b /\ 0 < c) as (Ha0 & Hb0 & Hc0) by nia.
-    assert (E1 : (0 <? a) = false) by (apply Z.ltb_ge; lia).
-    assert (E2 : (a <? 0) = true) by (apply Z.ltb_lt; lia).
+    assert (E1 : (0 <=? a) = false) by (apply Z.leb_gt; lia).
     assert (E3 : (0 <? b) = true) by (apply Z.ltb_lt; lia).
     assert (E4 : (0 <? c) = true) by (apply Z.ltb_lt; lia).
-    rewrite E1, E2, E3, E4. reflexivity.
-  - assert (0 < a /\ b < 0 /\ c < 0) as (Ha0 & Hb0 & Hc0) by nia.
-    assert (E1 : (0 <? a) = true) by (apply Z.ltb_lt; lia).
+    rewrite E1, E3, E4. reflexivity.
+  - assert (0 <= a /\ b < 0 /\ c < 0) as (Ha0 & Hb0 & Hc0) by nia.
+    assert (E1 : (0 <=? a) = true) by (apply Z.leb_le; lia).
     assert (E3 : (b <? 0) = true) by (apply Z.ltb_lt; lia).
     assert (E4 : (c <? 0) = true) by (apply Z.ltb_lt; lia).
     rewrite E1, E3, E4. reflexivity.
 Qed.
 
-(* an int result of + / - is never a wrapped value, outside the two holes of the sign test *)
+(* an int result of + / - is never a wrapped value *)
 Lemma plus_int_is_exact a b n :
-  in64 a = true -> in64 b = true -> (a, b) <> (min_int64, min_int64) -> plus_ii a b = RInt n -> n = a + b.
+  in64 a = true -> in64 b = true -> plus_ii a b = RInt n -> n = a + b.
 Proof.
-  intros Ha Hb Hne H. destruct (in64 (a + b)) eqn:E.
+  intros Ha Hb H. destruct (in64 (a + b)) eqn:E.
   - rewrite (plus_exact a b Ha Hb E) in H. congruence.
-  - rewrite (plus_overflow_float a b Ha Hb E Hne) in H. discriminate.
+  - rewrite (plus_overflow_float a b Ha Hb E) in H. discriminate.
 Qed.
 
 Lemma minus_int_is_exact a b n :
-  in64 a = true -> in64 b = true -> (a, b) <> (0, min_int64) -> minus_ii a b = RInt n -> n = a - b.
+  in64 a = true -> in64 b = true -> minus_ii a b = RInt n -> n = a - b.
 Proof.
-  intros Ha Hb Hne H. destruct (in64 (a - b)) eqn:E.
+  intros Ha Hb H. destruct (in64 (a - b)) eqn:E.
   - rewrite (minus_exact a b Ha Hb E) in H. congruence.
-  - rewrite (minus_overflow_float a b Ha Hb E Hne) in H. discriminate.
+  - rewrite (minus_overflow_float a b Ha Hb E) in H. discriminate.
 Qed.
 
-(* the two holes (witnesses for the _refuted theorems) *)
-Lemma plus_hole : in64 (min_int64 + min_int64) = false /\ plus_ii min_int64 min_int64 = RInt 0.
-Proof. split; vm_compute; reflexivity. Qed.
-Lemma minus_hole : in64 (0 - min_int64) = false /\ minus_ii 0 min_int64 = RInt min_int64.
-Proof. split; vm_compute; reflexivity. Qed.
+(* the two corners the sign test used to miss *)
+Lemma plus_minus_corners :
+  plus_ii min_int64 min_int64 = RFloat (i2f min_int64 + i2f min_int64)%float /\
+  minus_ii 0 min_int64 = RFloat (i2f 0 - i2f min_int64)%float.
+Proof. split; [apply plus_overflow_float|apply minus_overflow_float]; reflexivity. Qed.
 
-(* ---------------------------------------------------------------- * : an int result is the wrapped product (definitional) *)
-Lemma times_int_is_wrapped a b n : times_ii a b = RInt n -> n = wrap64 (a * b).
-Proof. unfold times_ii. destruct (_ <? _)%float; congruence. Qed.
+(* ---------------------------------------------------------------- Go division *)
+Definition div_hole (a b : Z) : Prop := (a, b) = (min_int64, -1).
 
-(* ---------------------------------------------------------------- / // % *)
-Lemma go_quot_exact a b : in64 a = true -> in64 b = true -> b <> 0 -> (a, b) <> (min_int64, -1) ->
+Lemma go_quot_exact a b : in64 a = true -> in64 b = true -> b <> 0 -> ~ div_hole a b ->
   go_quot a b = Z.quot a b.
 Proof.
   intros Ha Hb Hb0 Hne. unfold go_quot. apply wrap64_id. apply in64_iff.
-  apply in64_iff in Ha, Hb. unfold min_int64 in Hne. consts.
+  apply in64_iff in Ha, Hb. unfold div_hole, min_int64 in Hne. consts.
   assert (Hab : ~ (a = -9223372036854775808 /\ b = -1)) by (intros [-> ->]; apply Hne; reflexivity).
   Z.to_euclidean_division_equations. nia.
 Qed.
 
-Definition div_hole (a b : Z) : Prop := (a, b) = (min_int64, -1).
+Lemma hole_test a b : (b =? -1) && (a =? min_int64) = true <-> div_hole a b.
+Proof.
+  unfold div_hole. rewrite andb_true_iff, !Z.eqb_eq. split; [intros [-> ->]; reflexivity|intros H; inversion H; split; reflexivity].
+Qed.
 
-Lemma divide_exact a b q : in64 a = true -> in64 b = true -> b <> 0 -> ~ div_hole a b -> a = b * q ->
+(* ---------------------------------------------------------------- * : the integer product is verified by dividing it back *)
+Lemma times_int_is_exact a b n : in64 a = true -> in64 b = true -> times_ii a b = RInt n -> n = a * b.
+Proof.
+  intros Ha Hb. unfold times_ii. destruct (_ <? _)%float; [discriminate|].
+  destruct (Z.eqb_spec a 0) as [->|Ha0]; cbn [negb andb].
+  - intros H. inversion H. rewrite Z.mul_0_l. reflexivity.
+  - set (p := wrap64 (a * b)).
+    destruct (Z.eqb_spec (go_quot p a) b) as [Hq|Hq]; cbn [negb orb]; [|discriminate].
+    destruct ((a =? -1) && (b =? min_int64)) eqn:Ecorner; [discriminate|]. intros H; inversion H; subst n. clear H.
+    destruct (wrap64_cases (a * b)) as (k & Hk & Hr). fold p in Hk, Hr.
+    assert (Hp : in64 p = true) by (apply in64_iff; exact Hr).
+    assert (Hnh : ~ div_hole p a).
+    { intros Hh. unfold div_hole in Hh. inversion Hh as [[Hp' Ha']]. subst a.
+      rewrite Hp' in Hq. change (go_quot min_int64 (-1)) with min_int64 in Hq.
+      rewrite <- Hq in Ecorner. discriminate. }
+    rewrite (go_quot_exact p a Hp Ha Ha0 Hnh) in Hq.
+    pose proof (Z.quot_rem' p a) as Hqr. pose proof (Z.rem_bound_abs p a Ha0) as Hrb. rewrite Hq in Hqr.
+    apply in64_iff in Ha. consts.
+    assert (k = 0) by nia. subst k. lia.
+Qed.
+
+Lemma times_overflow_is_float a b : in64 a = true -> in64 b = true -> in64 (a * b) = false ->
+  times_ii a b = RFloat (i2f a * i2f b)%float.
+Proof.
+  intros Ha Hb Hc. destruct (times_ii a b) eqn:E; unfold times_ii in E;
+    repeat match type of E with (if ?c then _ else _) = _ => destruct c eqn:? end; try discriminate; try (inversion E; reflexivity).
+  exfalso. assert (Hn : times_ii a b = RInt (wrap64 (a * b))).
+  { unfold times_ii. rewrite Heqb0. cbv zeta. rewrite Heqb1. reflexivity. }
+  pose proof (times_int_is_exact a b _ Ha Hb Hn) as Heq. pose proof (wrap64_in64 (a * b)) as Hw. rewrite Heq in Hw. congruence.
+Qed.
+
+(* ---------------------------------------------------------------- / *)
+Lemma divide_exact a b q : in64 a = true -> in64 b = true -> b <> 0 -> a = b * q -> in64 q = true ->
   divide_ii a b = RInt q.
 Proof.
-  intros Ha Hb Hb0 Hh Hq. unfold divide_ii, go_rem.
+  intros Ha Hb Hb0 Hq Hqi. unfold divide_ii, go_rem.
   destruct (Z.eqb_spec b 0) as [|_]; [contradiction|].
+  assert (Hh : ~ div_hole a b).
+  { intros Hh. unfold div_hole in Hh. inversion Hh; subst. apply in64_iff in Hqi. unfold min_int64 in *. consts. lia. }
+  destruct ((b =? -1) && (a =? min_int64)) eqn:Et; [exfalso; apply Hh, hole_test, Et|].
   assert (Hr : Z.rem a b = 0) by (subst a; rewrite Z.mul_comm; apply Z.rem_mul; exact Hb0).
   rewrite Hr. cbn [Z.eqb]. rewrite (go_quot_exact a b Ha Hb Hb0 Hh).
   subst a. rewrite Z.mul_comm, Z.quot_mul by exact Hb0. reflexivity.
@@ -164,6 +212,8 @@ Lemma divide_inexact_float a b : b <> 0 -> (forall q, a <> b * q) ->
 Proof.
   intros Hb0 Hq. unfold divide_ii, go_rem.
   destruct (Z.eqb_spec b 0) as [|_]; [contradiction|].
+  destruct ((b =? -1) && (a =? min_int64)) eqn:Et.
+  { exfalso. apply hole_test in Et. inversion Et; subst. apply (Hq two63). reflexivity. }
   destruct (Z.eqb_spec (Z.rem a b) 0) as [Hr|_]; [|reflexivity].
   exfalso. apply (Hq (Z.quot a b)). pose proof (Z.quot_rem' a b). lia.
 Qed.
@@ -171,7 +221,10 @@ Qed.
 Lemma divide_by_zero_float a : divide_ii a 0 = RFloat (i2f a / i2f 0)%float.
 Proof. reflexivity. Qed.
 
-Lemma divide_hole_wraps : divide_ii min_int64 (-1) = RInt min_int64 /\ min_int64 = -1 * two63 /\ in64 two63 = false.
+(* the one exact quotient that does not fit is the float 2^63 *)
+Lemma divide_hole_float :
+  divide_ii min_int64 (-1) = RFloat (- i2f min_int64)%float /\ int_divide_ii min_int64 (-1) = RFloat (- i2f min_int64)%float
+  /\ min_int64 = -1 * two63 /\ in64 two63 = false /\ bits_of_f (- i2f min_int64)%float = float_of_int two63.
 Proof. repeat split; vm_compute; reflexivity. Qed.
 
 (* // floors *)
@@ -180,12 +233,12 @@ Lemma int_divide_floor a b : in64 a = true -> in64 b = true -> b <> 0 -> ~ div_h
 Proof.
   intros Ha Hb Hb0 Hh. unfold int_divide_ii, go_rem.
   destruct (Z.eqb_spec b 0) as [|_]; [contradiction|].
+  destruct ((b =? -1) && (a =? min_int64)) eqn:Et; [exfalso; apply Hh, hole_test, Et|].
   rewrite (go_quot_exact a b Ha Hb Hb0 Hh).
   assert (Hq : in64 (Z.quot a b) = true) by (rewrite <- (go_quot_exact a b Ha Hb Hb0 Hh); apply wrap64_in64).
   f_equal.
   pose proof (Z.quot_rem' a b) as Hqr. pose proof (Z.rem_bound_abs a b Hb0) as Hrb.
   pose proof (Z.rem_sign_nz a b Hb0) as Hrs.
-  pose proof (Z.div_mod a b Hb0) as Hdm.
   set (q := Z.quot a b) in *. set (r := Z.rem a b) in *.
   assert (Hcase : forall d, (d = 0 \/ d = 1) -> a = b * (q - d) + (r + d * b) ->
                   (0 <= r + d * b < b \/ b < r + d * b <= 0) -> a / b = q - d).
@@ -207,57 +260,66 @@ Proof.
     + rewrite (Hcase 0); [lia|lia|lia|lia].
 Qed.
 
-(* % : today's kernel tests the sign of the DIVIDEND, so it is the pythonic modulus except when b divides a
-   and a, b have opposite signs (then it returns b instead of 0) *)
-Lemma modulus_partial a b : in64 a = true -> in64 b = true -> b <> 0 ->
-  (Z.rem a b <> 0 \/ (0 <= a /\ 0 < b) \/ (a < 0 /\ b < 0)) ->
-  modulus_ii a b = RInt (a mod b).
+(* the hole is exactly where the floor quotient does not fit *)
+Lemma floor_quotient_fits a b : in64 a = true -> in64 b = true -> b <> 0 -> (in64 (a / b) = false <-> div_hole a b).
 Proof.
-  intros Ha Hb Hb0 Hside. unfold modulus_ii, go_rem.
+  intros Ha Hb Hb0. split.
+  - intros Hq. destruct (Z.eq_dec a min_int64) as [->|Hna]; [destruct (Z.eq_dec b (-1)) as [->|Hnb]; [reflexivity|]|]; exfalso.
+    + assert (Hh : ~ div_hole min_int64 b) by (intros Hh; inversion Hh; contradiction).
+      pose proof (int_divide_floor _ _ Ha Hb Hb0 Hh) as He. unfold int_divide_ii in He.
+      destruct (b =? 0); [discriminate|]. destruct ((b =? -1) && (min_int64 =? min_int64)); [discriminate|].
+      inversion He as [He']. rewrite <- He' in Hq.
+      match type of Hq with in64 (if ?c then wrap64 ?x else ?y) = false => destruct c; [rewrite wrap64_in64 in Hq|unfold go_quot in Hq; rewrite wrap64_in64 in Hq] end; discriminate.
+    + assert (Hh : ~ div_hole a b) by (intros Hh; inversion Hh; contradiction).
+      pose proof (int_divide_floor _ _ Ha Hb Hb0 Hh) as He. unfold int_divide_ii in He.
+      destruct (b =? 0); [discriminate|]. destruct ((b =? -1) && (a =? min_int64)); [discriminate|].
+      inversion He as [He']. rewrite <- He' in Hq.
+      match type of Hq with in64 (if ?c then wrap64 ?x else ?y) = false => destruct c; [rewrite wrap64_in64 in Hq|unfold go_quot in Hq; rewrite wrap64_in64 in Hq] end; discriminate.
+  - intros Hh. inversion Hh. reflexivity.
+Qed.
+
+(* % : floor modulus *)
+Lemma modulus_floor_mod a b : in64 a = true -> in64 b = true -> b <> 0 -> modulus_ii a b = RInt (a mod b).
+Proof.
+  intros Ha Hb Hb0. unfold modulus_ii, go_rem.
   destruct (Z.eqb_spec b 0) as [|_]; [contradiction|].
   f_equal.
   pose proof (Z.quot_rem' a b) as Hqr. pose proof (Z.rem_bound_abs a b Hb0) as Hrb.
-  pose proof (Z.rem_sign_nz a b Hb0) as Hrs.
   set (q := Z.quot a b) in *. set (r := Z.rem a b) in *.
   assert (Hcase : forall d, a = b * (q - d) + (r + d * b) ->
                   (0 <= r + d * b < b \/ b < r + d * b <= 0) -> a mod b = r + d * b).
   { intros d He Hbnd. symmetry. apply (Z.mod_unique a b (q - d) (r + d * b)); [exact Hbnd| lia]. }
   apply in64_iff in Ha, Hb. consts.
-  assert (Hsgn : r = 0 \/ (0 < r /\ 0 < a) \/ (r < 0 /\ a < 0)).
-  { destruct (Z.eq_dec r 0) as [|Hr]; [left; assumption|right].
-    specialize (Hrs Hr). pose proof (Z.sgn_spec r). pose proof (Z.sgn_spec a). lia. }
-  destruct (0 <=? a) eqn:Ea; [apply Z.leb_le in Ea|apply Z.leb_gt in Ea].
-  - destruct (b <? 0) eqn:Eb; [apply Z.ltb_lt in Eb|apply Z.ltb_ge in Eb].
-    + rewrite (Hcase 1); [|lia|lia]. replace (r + 1 * b) with (r + b) by lia. apply wrap64_id. apply in64_iff. consts. lia.
+  destruct (Z.eqb_spec r 0) as [Hr0|Hr0]; cbn [negb andb].
+  - rewrite (Hcase 0); [lia|lia|lia].
+  - destruct (r <? 0) eqn:Er; destruct (b <? 0) eqn:Eb; bsplit Er; bsplit Eb; cbn [Bool.eqb negb].
     + rewrite (Hcase 0); [lia|lia|lia].
-  - destruct (0 <=? b) eqn:Eb; [apply Z.leb_le in Eb|apply Z.leb_gt in Eb].
+    + rewrite (Hcase 1); [|lia|lia]. replace (r + 1 * b) with (r + b) by lia. apply wrap64_id. apply in64_iff. consts. lia.
     + rewrite (Hcase 1); [|lia|lia]. replace (r + 1 * b) with (r + b) by lia. apply wrap64_id. apply in64_iff. consts. lia.
     + rewrite (Hcase 0); [lia|lia|lia].
 Qed.
 
-(* consequence, same side condition: result has the divisor's sign (or is 0) and a = b*(a//b) + a%b *)
-Lemma modulus_sign_partial a b m : in64 a = true -> in64 b = true -> b <> 0 ->
-  (Z.rem a b <> 0 \/ (0 <= a /\ 0 < b) \/ (a < 0 /\ b < 0)) ->
+Lemma modulus_sign a b m : in64 a = true -> in64 b = true -> b <> 0 ->
   modulus_ii a b = RInt m -> (0 < b -> 0 <= m < b) /\ (b < 0 -> b < m <= 0).
 Proof.
-  intros Ha Hb Hb0 Hside H. rewrite (modulus_partial a b Ha Hb Hb0 Hside) in H. inversion H; subst m.
+  intros Ha Hb Hb0 H. rewrite (modulus_floor_mod a b Ha Hb Hb0) in H. inversion H; subst m.
   split; intros Hs; [apply Z.mod_pos_bound|apply Z.mod_neg_bound]; exact Hs.
 Qed.
 
-Lemma divmod_identity_partial a b q m : in64 a = true -> in64 b = true -> b <> 0 -> ~ div_hole a b ->
-  (Z.rem a b <> 0 \/ (0 <= a /\ 0 < b) \/ (a < 0 /\ b < 0)) ->
+Lemma divmod_identity a b q m : in64 a = true -> in64 b = true -> b <> 0 ->
   int_divide_ii a b = RInt q -> modulus_ii a b = RInt m -> a = b * q + m.
 Proof.
-  intros Ha Hb Hb0 Hh Hside Hq Hm.
-  rewrite (int_divide_floor a b Ha Hb Hb0 Hh) in Hq. rewrite (modulus_partial a b Ha Hb Hb0 Hside) in Hm.
+  intros Ha Hb Hb0 Hq Hm.
+  assert (Hh : ~ div_hole a b).
+  { intros Hh. inversion Hh; subst. destruct divide_hole_float as (_ & He & _). rewrite He in Hq. discriminate Hq. }
+  rewrite (int_divide_floor a b Ha Hb Hb0 Hh) in Hq. rewrite (modulus_floor_mod a b Ha Hb Hb0) in Hm.
   inversion Hq; inversion Hm; subst. apply Z.div_mod. exact Hb0.
 Qed.
 
-Lemma modulus_refuted_witness :
-  in64 (-10) = true /\ in64 5 = true /\ modulus_ii (-10) 5 = RInt 5 /\ (-10) mod 5 = 0
-  /\ modulus_ii 6 (-3) = RInt (-3) /\ 6 mod (-3) = 0
-  /\ int_divide_ii (-10) 5 = RInt (-2) /\ -10 <> 5 * (-2) + 5.
-Proof. repeat split; try (vm_compute; reflexivity). lia. Qed.
+Lemma modulus_examples :
+  modulus_ii (-10) 5 = RInt 0 /\ modulus_ii 6 (-3) = RInt 0 /\ modulus_ii 0 (-1) = RInt 0
+  /\ modulus_ii (-17) 10 = RInt 3 /\ modulus_ii 13 10 = RInt 3 /\ modulus_ii 7 (-3) = RInt (-2).
+Proof. repeat split. Qed.
 
 Lemma modulus_by_zero_float a : modulus_ii a 0 = RFloat (i2f a / i2f 0)%float.
 Proof. reflexivity. Qed.
@@ -270,16 +332,7 @@ Lemma dotminus_wrap a b : dotminus_ii a b = RInt (wrap64 (a - b)). Proof. reflex
 Lemma dottimes_wrap a b : dottimes_ii a b = RInt (wrap64 (a * b)). Proof. reflexivity. Qed.
 Lemma dotdivide_trunc a b : b <> 0 -> dotdivide_ii a b = RInt (wrap64 (Z.quot a b)).
 Proof. intros Hb. unfold dotdivide_ii. destruct (Z.eqb_spec b 0); [contradiction|reflexivity]. Qed.
-Lemma dotdivide_zero_panics a : dotdivide_ii a 0 = RPanic. Proof. reflexivity. Qed.
-
-(* the wrapped result is the unique int64 congruent to the exact result modulo 2^64 *)
-Lemma wrap64_unique n r : in64 r = true -> r mod two64 = n mod two64 -> r = wrap64 n.
-Proof.
-  intros Hr Hm. pose proof (wrap64_in64 n) as Hw. pose proof (wrap64_congr n) as Hc.
-  rewrite <- Hm in Hc. apply in64_iff in Hr, Hw. consts.
-  pose proof (Z.div_mod r 18446744073709551616 ltac:(lia)).
-  pose proof (Z.div_mod (wrap64 n) 18446744073709551616 ltac:(lia)). lia.
-Qed.
+Lemma dotdivide_zero_float a : dotdivide_ii a 0 = RFloat (i2f a / i2f 0)%float. Proof. reflexivity. Qed.
 
 (* the literal threshold of times_ii is the double 2^63 - 1024 *)
 Lemma times_threshold_value : bits_of_f times_threshold = float_of_int 9223372036854774784
